@@ -13,6 +13,7 @@ from typing import Optional
 from typing import TextIO
 from typing import Union
 
+from . import _verif
 from .exceptions import DisabledTagError
 from .output import NullIO
 from .token import TOKEN_TAG
@@ -52,12 +53,14 @@ class Node(ABC):
         """Check disabled tags before delegating to `render_to_output`."""
         if context.disabled_tags:
             self.raise_for_disabled(context.disabled_tags)
+        if _verif.ENABLED: _verif.emit("node", node=self, token_kind=self.token.kind, tag=self.token.value, index=self.token.start_index, template=context.template.name)  # fmt: skip  # noqa: E501, E701
         return self.render_to_output(context, buffer)
 
     async def render_async(self, context: RenderContext, buffer: TextIO) -> int:
         """An async version of `liquid.ast.Node.render`."""
         if context.disabled_tags:
             self.raise_for_disabled(context.disabled_tags)
+        if _verif.ENABLED: _verif.emit("node", node=self, token_kind=self.token.kind, tag=self.token.value, index=self.token.start_index, template=context.template.name)  # fmt: skip  # noqa: E501, E701
         return await self.render_to_output_async(context, buffer)
 
     @abstractmethod
